@@ -42,8 +42,10 @@ FLAVOURS = {
     # at -O0/-Os and with every other libc)
     'asan-bsearch': {'cc': 'gcc', 'cflags': SAN + ' -DNDEBUG', 'lib_cflags': '-D__NO_INLINE__', 'extra_src': ['pv_bsearch.c'], 'ldextra': '-Wl,--wrap=bsearch'},
     'uchar-bsearch': {'cc': 'gcc', 'cflags': SAN + ' -DNDEBUG', 'lib_cflags': '-funsigned-char -D__NO_INLINE__', 'extra_src': ['pv_bsearch.c'], 'ldextra': '-Wl,--wrap=bsearch'},
+    # the way a threaded application and its libraries are compiled: -pthread (defines _REENTRANT, which code may test)
+    'asan-pthread': {'cc': 'gcc', 'cflags': SAN + ' -DNDEBUG -pthread'},
     'asan-cp932': {'cc': 'gcc', 'cflags': SAN + ' -DNDEBUG', 'lib_cflags': '-fexec-charset=CP932'},
-    'tsan':     {'cc': 'gcc', 'cflags': '-O1 -g -fsanitize=thread -DNDEBUG'},
+    'tsan':     {'cc': 'gcc', 'cflags': '-O1 -g -fsanitize=thread -DNDEBUG -pthread'},     # -pthread as every threaded program is built (defines _REENTRANT)
     # libc entry points reachable from the library are interposed at link time (C11, C15, C18)
     'asan-wrap': {'cc': 'gcc', 'cflags': SAN + ' -DNDEBUG', 'extra_src': ['pv_wrap.c'],
                   'ldextra': WRAPS},
@@ -55,8 +57,8 @@ FLAVOURS = {
     'fuzz':     {'cc': 'clang', 'cflags': '-O1 -g -fno-omit-frame-pointer -fsanitize=fuzzer-no-link,address,undefined -fno-sanitize-recover=all -fno-sanitize=object-size',
                  'ldflags': '-fsanitize=fuzzer,address,undefined'},
     'tsan-wrap-Os': {'cc': 'gcc', 'cflags': '-Os -g -fsanitize=thread -DNDEBUG', 'extra_src': ['pv_wrap.c'], 'ldextra': WRAPS},
-    'tsan-wrap-O3': {'cc': 'gcc', 'cflags': '-O3 -g -fsanitize=thread -DNDEBUG -march=native', 'extra_src': ['pv_wrap.c'], 'ldextra': WRAPS},
-    'tsan-wrap': {'cc': 'gcc', 'cflags': '-O1 -g -fsanitize=thread -DNDEBUG', 'extra_src': ['pv_wrap.c'],
+    'tsan-wrap-O3': {'cc': 'gcc', 'cflags': '-O3 -g -fsanitize=thread -DNDEBUG -march=native -pthread', 'extra_src': ['pv_wrap.c'], 'ldextra': WRAPS},
+    'tsan-wrap': {'cc': 'gcc', 'cflags': '-O1 -g -fsanitize=thread -DNDEBUG -pthread', 'extra_src': ['pv_wrap.c'],
                   'ldextra': WRAPS},
     # C16: no sanitizer (they change frame layout); eager binding so that the dynamic loader never dumps registers on the monitored stack
     'opt-O0':   {'cc': 'gcc', 'cflags': '-O0 -g -DNDEBUG', 'ldextra': '-Wl,-z,now'},
@@ -380,7 +382,7 @@ MANIFEST_TEXT['C20'] = {'technique': 'runtime monitoring: ThreadSanitizer build 
 # Configuration stripes: "which code is compiled" is an input of every property (DESIGN.md 2.9, lessons i and v).  Every functional driver
 # that does not need the libc interposition flavours also runs a thin stripe of its workload on: a library built with unsigned plain char,
 # a clang build, -march=native, MemorySanitizer, a non-UTF-8 execution charset, and the assertion-enabled build.
-_AXES = [('fortify', 'fortify', '8'), ('shortenum', 'asan-shortenum', '6'), ('nognu', 'clang-nognu', '6'), ('fs16', 'asan-fs16', '6'), ('uchar', 'uchar', '8'), ('clang', 'clang-asan', '8'), ('native', 'asan-native', '8'), ('msan', 'msan', '8'), ('cp932', 'asan-cp932', '5'), ('asan-dbg', 'asan-dbg', '6'), ('c2x', 'asan-c2x', '5'), ('bsearch', 'asan-bsearch', '6')]
+_AXES = [('fortify', 'fortify', '8'), ('shortenum', 'asan-shortenum', '6'), ('nognu', 'clang-nognu', '6'), ('fs16', 'asan-fs16', '6'), ('uchar', 'uchar', '8'), ('clang', 'clang-asan', '8'), ('native', 'asan-native', '8'), ('msan', 'msan', '8'), ('cp932', 'asan-cp932', '5'), ('asan-dbg', 'asan-dbg', '6'), ('c2x', 'asan-c2x', '5'), ('bsearch', 'asan-bsearch', '6'), ('pthread', 'asan-pthread', '6')]
 for _p in ('C01', 'C02', 'C03', 'C04', 'C05', 'C06', 'C07', 'C08', 'C09', 'C10', 'C12', 'C14', 'C17'):
     _runs = PROPS[_p]['runs']
     _drv = _runs[0]['driver']
